@@ -276,6 +276,12 @@ def cleanGo (items : Dict) (done : List Rule) : List Rule → Sheet × Bool
 
 def cleanNamespaces (s : Sheet) : Sheet × Bool := cleanGo (view s) [] s
 
+/-- how many rules of `l` a clean-up that goes through leaves in place -/
+def keptBefore (items : Dict) (l : List Rule) : Nat :=
+  (l.filter fun r => match r with
+    | .ns n => decide ((n.pfx, n.uri) ∈ items)
+    | _ => true).length
+
 /-! ## `insertRule` (`cssstylesheet.py:551-905`) -/
 
 /-- result of a DOM call: its return value, or the exception class -/
@@ -293,10 +299,10 @@ def lastIdx (p : Rule → Bool) : List Rule → Option Nat
 
 def insertAt (s : Sheet) (i : Nat) (r : Rule) : Sheet := s.take i ++ r :: s.drop i
 
-/-- in-order position for an @namespace rule (:757-782): after the last @namespace rule if there is one, else
-before the first rule after the last @charset/@import that is of a later kind — and `index` itself if there
-is none -/
-def nsInOrderIndex (s : Sheet) (index : Nat) : Nat :=
+/-- in-order position for an @namespace rule (:766-792): after the last @namespace rule if there is one, else
+before the first rule after the last @charset/@import that is of a later kind — and the end of the list if
+there is none (a given index is ignored, fix e727728) -/
+def nsInOrderIndex (s : Sheet) : Nat :=
   match lastIdx Rule.isNs s with
   | some i => i + 1
   | none =>
@@ -305,13 +311,13 @@ def nsInOrderIndex (s : Sheet) (index : Nat) : Nat :=
       | none => 0
     match (s.drop start).findIdx? Rule.isAfterNs with
     | some j => start + j
-    | none => index
+    | none => s.length
 
 /-- where `insertRule` puts a well-formed @namespace rule, or why it refuses (:595-602, 755-807) -/
 def nsPosition (s : Sheet) (idx : Option Nat) (inOrder : Bool) : Except Err Nat :=
   let index0 := idx.getD s.length
   if index0 > s.length then .error .indexSizeErr                                            -- :595-602
-  else if inOrder then .ok (nsInOrderIndex s index0)
+  else if inOrder then .ok (nsInOrderIndex s)
   else if (s.drop index0).any Rule.isCharsetOrImport then .error .hierarchyRequestErr       -- :784-791
   else if (s.take index0).any Rule.isBody then .error .hierarchyRequestErr                    -- :792-807
   else .ok index0
@@ -327,7 +333,9 @@ def insertNsAt (s : Sheet) (r : NsRule) (index : Nat) (clean : Bool) : Sheet × 
       -- deleteRule raised inside the clean-up: the saved rule list is restored before the exception is passed
       -- on (`oldCssRules`, :815-829, fixes 3ec898a + 2293ec0)
       if c.2 then (s, .err .noModificationAllowedErr)
-      else if (r.pfx, r.uri) ∈ view s1 then (c.1, .ok (some index))           -- rule still in cssRules
+      -- rule still in cssRules: its index is looked up again, the clean-up may have removed rules in front
+      -- of it (:842-846, fix 3065ba9) — as many as there are non-effective @namespace rules before it
+      else if (r.pfx, r.uri) ∈ view s1 then (c.1, .ok (some (keptBefore (view s1) (s1.take index))))
       else (c.1, .ok none)                                                    -- cleaned again (:818-820)
     else (s1, .ok (some index))
 
